@@ -35,7 +35,44 @@ void burst_thread(void *arg) {
 }
 
 // Runs the plan in directory dir.  site == nullptr: fault-free counting run.
-void run_once(const Plan &p, const string &dir, const Site *site, simfs::Counters *counts_out) {
+// One fault while the database is being created.  The failed ldb_open must report an error (or succeed), must not
+// crash or hang, and a later fault-free ldb_open of the same directory must give an empty, writable database.
+void run_create(const Plan &p, const string &dir, const Site &site) {
+  string where = "while the database is being created: " + site_str(site);
+  sim::budget_reset();
+  simfs::clear_faults();
+  simfs::fired().clear();
+  memset(&simfs::counters(), 0, sizeof(simfs::Counters));
+  simfs::arm(site.rule);
+  ldb_t *db = nullptr;
+  { DbOptions opt; opt.set(p.cfg, true);
+    int rc = ldb_open(dir.c_str(), &opt.o, &db);
+    bool fired = !simfs::fired().empty();
+    if (rc != LDB_OK) { db = nullptr; if (!fired) violation("C12", "spurious_error", "%s: ldb_open fails with %s although no fault fired", where.c_str(), rcname(rc)); }
+    if (fired) probe("fault_runs_fired_at_create");
+    if (db) { Upd u; u.key = "created"; u.tag = 1; u.len = 10; int wrc = db_write(db, {u}, 1); ldb_close(db); db = nullptr; sim::drain(); if (wrc != LDB_OK && !fired) violation("C12", "spurious_error", "%s: first write fails with %s", where.c_str(), rcname(wrc)); if (wrc == LDB_OK) probe("create_survived_fault"); else { simfs::clear_faults(); return; } simfs::clear_faults();
+      DbOptions o2; o2.set(p.cfg, false); int orc = ldb_open(dir.c_str(), &o2.o, &db);
+      if (orc != LDB_OK) { violation("C12", "reopen_failed", "%s: ldb_open returned OK and a synced write was acknowledged, but with the fault cleared the database cannot be reopened (%s)", where.c_str(), rcname(orc)); return; }
+      string v; if (db_get(db, "created", &v, nullptr, 1, 1) != LDB_OK) violation("C12", "acked_lost", "%s: the write acknowledged after the faulty creation is missing after reopen", where.c_str());
+      ldb_close(db); sim::drain(); return; }
+  }
+  simfs::clear_faults();
+  sim::drain();
+  if (failed()) return;
+  DbOptions opt; opt.set(p.cfg, true);
+  int rc = ldb_open(dir.c_str(), &opt.o, &db);
+  if (rc != LDB_OK) { violation("C12", "create_retry_failed", "%s: after the failed creation, a fault-free ldb_open with create_if_missing fails with %s", where.c_str(), rcname(rc)); return; }
+  std::vector<std::pair<string, string>> rows;
+  int src = db_scan(db, &rows, nullptr, 1);
+  if (src != LDB_OK || !rows.empty()) violation("C12", "create_retry_contents", "%s: the database created by the retry is not empty (%zu entries, scan %s)", where.c_str(), rows.size(), rcname(src));
+  Upd u; u.key = "created"; u.tag = 1; u.len = 10;
+  if (!failed() && db_write(db, {u}, 0) != LDB_OK) violation("C12", "create_retry_unwritable", "%s: the database created by the retry refuses a write", where.c_str());
+  ldb_close(db);
+  sim::drain();
+  count("create_fault_runs");
+}
+
+void run_once(const Plan &p, const string &dir, const Site *site, simfs::Counters *counts_out, simfs::Counters *create_counts_out = nullptr) {
   std::vector<B> bs;
   for (size_t i = 0; i < p.ops.size(); i++) if (p.ops[i].kind == O_WRITE && !p.ops[i].ups.empty() && is_marker(p.ops[i].ups[0].key)) { B b; b.opidx = (int)i; b.ups = p.ops[i].ups; b.marker = b.ups[0].key; bs.push_back(b); }
   string where = site ? site_str(*site) : string("fault-free");
@@ -46,6 +83,7 @@ void run_once(const Plan &p, const string &dir, const Site *site, simfs::Counter
   ldb_t *db = nullptr;
   int rc = ldb_open(dir.c_str(), &opt.o, &db);
   if (rc != LDB_OK) { violation("C12", "open_failed", "creating the database failed without any fault: %s", rcname(rc)); return; }
+  if (create_counts_out) *create_counts_out = simfs::counters();
   memset(&simfs::counters(), 0, sizeof(simfs::Counters)); // ordinals count calls made after the database exists
   if (site) simfs::arm(site->rule);
   Contents acked; // what reads must see during the session
@@ -269,15 +307,17 @@ Plan gen_ioerr(uint64_t seed, const string &prop) {
   if (nburst) p.sc = random_sched(r, true);
   p.seti("max_sites", g_thorough ? 400 : g_light ? 14 : nops <= 12 ? 60 : 36);
   p.seti("noise", r.chance(0.4));
+  p.seti("create_faults", r.chance(0.35) ? (g_thorough ? 40 : 8) : 0);
   return p;
 }
 
 void exec_ioerr(const Plan &p, RunOut *out) {
   begin_run(p, out);
   {
-    simfs::Counters base;
+    simfs::Counters base, atcreate;
+    memset(&atcreate, 0, sizeof atcreate);
     if (p.geti("noise", 0)) { simfs::Noise n; n.short_write = 0.05; n.short_read = 0.05; n.eintr = 0.03; n.seed = p.seed; simfs::set_noise(n); }
-    run_once(p, "/sim/r0", nullptr, &base);
+    run_once(p, "/sim/r0", nullptr, &base, &atcreate);
     // enumerate fault sites from the counted calls
     std::vector<Site> sites;
     if (!failed()) {
@@ -306,6 +346,35 @@ void exec_ioerr(const Plan &p, RunOut *out) {
         }
       size_t maxs = (size_t)p.geti("max_sites", 40);
       while (sites.size() > maxs) sites.erase(sites.begin() + (long)r.below(sites.size()));
+    }
+    // faults while the database is being created (a few per plan: the creation sequence is the same for every plan of
+    // one configuration)
+    if (!failed() && p.geti("create_faults", 0)) {
+      Rng r(p.seed ^ 0xC4EA7E);
+      static const int calls[] = {simfs::C_CREAT, simfs::C_OPEN, simfs::C_WRITE, simfs::C_FSYNC, simfs::C_RENAME, simfs::C_UNLINK, simfs::C_CLOSE, simfs::C_MKDIR, simfs::C_OPENDIR};
+      std::vector<Site> cs;
+      for (int call : calls) for (int fc = 1; fc < simfs::FC_N; fc++) {
+        uint64_t n = atcreate.calls[call][fc];
+        if (!n || fc == simfs::FC_INFO) continue;
+        for (uint64_t nth = 0; nth < n && nth < 3; nth++) {
+          Site s2; s2.rule.call = call; s2.rule.fclass = fc; s2.rule.nth = (int)nth;
+          bool wr = call == simfs::C_WRITE || call == simfs::C_CREAT || call == simfs::C_FSYNC || call == simfs::C_MKDIR || call == simfs::C_RENAME;
+          s2.rule.err = wr ? (r.chance(0.5) ? ENOSPC : EIO) : (call == simfs::C_OPEN || call == simfs::C_OPENDIR) ? (r.chance(0.5) ? EMFILE : EACCES) : EIO;
+          s2.rule.persistent = r.chance(0.3); s2.rule.partial = (call == simfs::C_WRITE && r.chance(0.4)) ? (int)r.range(5, 60) : 0; s2.kill_at_end = false;
+          cs.push_back(s2);
+        }
+      }
+      size_t maxc = (size_t)p.geti("create_faults", 0);
+      while (cs.size() > maxc) cs.erase(cs.begin() + (long)r.below(cs.size()));
+      int ci = 0;
+      for (auto &s2 : cs) {
+        if (failed()) break;
+        string d = "/sim/c" + std::to_string(ci++);
+        run_create(p, d, s2);
+        for (auto &f : simfs::fired()) out->probes[string("fault_at_create:") + simfs::call_name[f.call] + ":" + simfs::fclass_name[f.fclass]]++;
+        simfs::fired().clear();
+        simfs::remove_tree(d);
+      }
     }
     count("fault_sites_enumerated", sites.size());
     int idx = 1;
